@@ -364,6 +364,45 @@ theorem operators_use_component_order_cyl (r : Int → K) (dr dz : K) (a : Arr K
   · rintro c (rfl | rfl) <;> simp [cylVectorLaplace]
   · simp [cylVectorLaplace]
 
+/-- the `DimensionError` branch of `_vector_to_cartesian`: the conversion is performed exactly when the point
+has `dim` coordinates and there are `dim` components, and then it is `vectorToCartesian` and has `dim`
+Cartesian components -/
+theorem vectorToCartesianChecked_spec (cl : GridClass) (n : ℕ) (hn : n ≤ 3) (a : Angles K) (nCoords : ℕ)
+    (comps : Vec K) :
+    (vectorToCartesianChecked cl n a nCoords comps = none ↔
+      ¬ (nCoords = dimOf cl n ∧ comps.length = dimOf cl n)) ∧
+    (∀ v, vectorToCartesianChecked cl n a nCoords comps = some v →
+      v = vectorToCartesian cl n a comps ∧ v.length = dimOf cl n) := by
+  unfold vectorToCartesianChecked dimOf
+  constructor
+  · split_ifs with h <;> simp [h]
+  · intro v hv
+    split_ifs at hv with h
+    cases hv
+    refine ⟨rfl, ?_⟩
+    obtain ⟨-, hc⟩ := h
+    have h4 : n = 0 ∨ n = 1 ∨ n = 2 ∨ n = 3 := by omega
+    cases cl
+    case polar =>
+      match comps, hc with
+      | [u, v], _ => la_simp
+    case spherical =>
+      match comps, hc with
+      | [u, v, w], _ => la_simp
+    case cylindrical =>
+      match comps, hc with
+      | [u, v, w], _ => la_simp
+    all_goals
+      rcases h4 with rfl | rfl | rfl | rfl
+      · match comps, hc with
+        | [], _ => la_simp
+      · match comps, hc with
+        | [u], _ => la_simp
+      · match comps, hc with
+        | [u, v], _ => la_simp
+      · match comps, hc with
+        | [u, v, w], _ => la_simp
+
 /-- the classes whose conversion is consistent on this tree -/
 def OrderConsistentClass (cl : GridClass) : Prop :=
   cl = .polar ∨ cl = .spherical ∨ cl = .unit ∨ cl = .cartesian
